@@ -208,6 +208,12 @@ def fd_check(kind, p, box, h=1e-6):
 # fmatch case generation
 # ----------------------------------------------------------------------------
 
+# wanted number of equations 3*nbeads*frames_per_block of a many-equations
+# block (the next feasible N >= target is used), plus controls
+MANY_TARGETS = [(4124, 4200), 5000, 8191, 8193, "le4096", 12000, (4124, 4200),
+                6001, "multiple", 10001, 16385, (4124, 4200), 4500, 7000,
+                (8193, 8300), 9000]
+
 FAMILIES = ["nonbonded", "bond", "angle", "dihedral", "mixed", "mixed-angle",
             "dihedral-periodic", "mixed-order", "mixed-order", "small-box",
             "small-box", "irregular-grid", "irregular-grid"]
@@ -599,6 +605,188 @@ class FGen:
             allpos = np.concatenate([allpos, pts])
         return allpos
 
+    # ---- family many-equations: blocks with more than 4096 equations -----
+    def make_many(self, target, variant):
+        """one interaction (bond in dimers / angle in trimers / pair between
+        single beads), one block of fpb frames with N = 3*nbeads*fpb
+        equations. variant 'tail': one or two spline intervals are sampled
+        only by equations at the very end of the block (bond / pair: special
+        molecules of the last frame, aligned along z and listed last, so that
+        only the last z rows carry them; angle: the whole last frame);
+        variant 'noisy': noisy forces, expected = own least-squares solution
+        over the natural-spline space (constrained LS only);
+        target: wanted N, or 'le4096' / 'multiple' (controls)"""
+        r = self.r
+        kind = self.ch(["bond", "bond", "nonbonded", "angle"])
+        if target == "multiple" and kind == "angle":
+            kind = "bond"
+        chain = {"bond": 2, "angle": 3, "nonbonded": 1}[kind]
+        ntail = int(self.ch([1, 1, 2]))
+        nspecial = 14 * ntail
+        need_b = 2 * nspecial            # z rows that must be dropped
+        best = None
+        for fpb in range(6, 61):
+            for nbeads in range(chain * 20, 421, chain):
+                N = 3 * nbeads * fpb
+                mod = N % 4096
+                if target == "le4096":
+                    ok = 2000 <= N <= 4096
+                    score = -N
+                elif target == "multiple":
+                    ok = mod == 0
+                    score = N
+                else:
+                    ok = N >= target and N > 4096 and mod != 0
+                    if variant == "tail":
+                        ok = ok and (mod >= 3 * nbeads if kind == "angle"
+                                     else mod >= need_b)
+                    score = N
+                if kind != "nonbonded" and nbeads // chain < 2 * nspecial:
+                    ok = False
+                if kind == "nonbonded" and nbeads < 6 * nspecial:
+                    ok = False
+                if ok and (best is None or (score, r.rand()) < best[0]):
+                    best = ((score, r.rand()), nbeads, fpb)
+        if best is None:
+            return None
+        nbeads, fpb = best[1], best[2]
+        nmol = nbeads // chain
+        c = {"family": "many-equations", "sub": kind, "nblocks": 1,
+             "replicate": False, "nbsearch": self.ch([None, "grid", "simple"]),
+             "mapping": False, "decimals": int(self.ch([4, 5, 6])),
+             "chain": chain, "nmol": nmol, "types": ["A"] * chain,
+             "fpb": fpb, "extra_frames": 0, "trj_force": False,
+             "junk_before": 0, "junk_after": 0, "wrap": False, "cross": False,
+             "bond_default": [0.12, 0.3],
+             "junk_seed": int(r.randint(1, 2 ** 31 - 1))}
+        c["constrained"] = True if variant == "noisy" else bool(r.rand() < 0.7)
+        L = max(2.6, (nbeads / r.uniform(2.0, 3.0)) ** (1 / 3.0))
+        box = np.round(np.array([L * r.uniform(0.95, 1.15) for _ in range(3)]), 3)
+        c["box"] = [float(b) for b in box]
+        if kind == "bond":
+            st, lo, k = self.ch([0.02, 0.04, 0.05]), self.ch([0.1, 0.15, 0.2]), \
+                int(r.randint(4, 8))
+        elif kind == "angle":
+            st, lo, k = self.ch([0.2, 0.25]), self.ch([0.8, 1.0]), int(r.randint(4, 7))
+        else:
+            st, lo, k = self.ch([0.05, 0.1]), self.ch([0.25, 0.3]), int(r.randint(4, 8))
+        it = {"class": "pair" if kind == "nonbonded" else "bonded",
+              "name": "NB" if kind == "nonbonded" else kind + "1",
+              "min": lo, "max": round(lo + k * st, 6), "step": st}
+        if kind == "nonbonded":
+            it.update(type1="A", type2="A")
+        else:
+            it["kind"] = kind
+        it["out_step"] = round(st * self.ch([1.0, 0.5, 0.25]), 6)
+        grid = lo + st * np.arange(k + 1)
+        grid[-1] = it["max"]
+        it["grid"] = [float(g) for g in grid]
+        it["last_interval_ratio"] = 1.0
+        scale = {"nonbonded": 300.0, "bond": 2000.0, "angle": 80.0}[kind] * \
+            r.uniform(0.2, 2)
+        _, yk = make_function(r, grid, scale)
+        it["knots"] = [float(v) for v in yk]
+        c["interactions"] = [it]
+        c["bonded_order"] = [] if kind == "nonbonded" else [it["name"]]
+        nb_ = {"bond": 2, "angle": 3}.get(kind)
+        c["tuples"] = {} if kind == "nonbonded" else {it["name"]: [list(range(nb_))]}
+        m = 0.03 * st
+        low_end = kind == "nonbonded" or r.rand() < 0.5
+        if variant == "tail":
+            if low_end:
+                tail_rng, head_rng = (grid[0] + m, grid[ntail] - m), \
+                    (grid[ntail] + m, grid[-1] - m)
+                tail_iv = list(range(ntail))
+            else:
+                tail_rng, head_rng = (grid[k - ntail] + m, grid[-1] - m), \
+                    (grid[0] + m, grid[k - ntail] - m)
+                tail_iv = list(range(k - ntail, k))
+        else:
+            tail_rng = head_rng = (grid[0] + m, grid[-1] - m)
+            tail_iv = []
+        N = 3 * nbeads * fpb
+        c["many"] = {"N": N, "N_mod_4096": N % 4096, "variant": variant,
+                     "tail_only_intervals": tail_iv, "kind": kind,
+                     "control": target if isinstance(target, str) else None,
+                     "equations_carrying_tail_only_samples":
+                         0 if variant != "tail" else
+                         (3 * nbeads if kind == "angle" else 2 * nspecial)}
+        c["noise"] = 0.0 if variant == "tail" else float(r.uniform(0.05, 0.4))
+        frames = []
+        for f in range(fpb):
+            last = f == fpb - 1 and variant == "tail"
+            if kind == "nonbonded":
+                fr = self.many_nb_frame(nbeads, box, it, head_rng, tail_rng,
+                                        nspecial if last else 0)
+            else:
+                fr = self.many_chain_frame(kind, nmol, box, head_rng, tail_rng,
+                                           last, nspecial)
+            if fr is None:
+                return None
+            frames.append(fr)
+        c["frames_pos"] = frames
+        return c
+
+    def many_chain_frame(self, kind, nmol, box, head_rng, tail_rng, last, nspecial):
+        r = self.r
+        out = []
+        for mi in range(nmol):
+            p0 = r.uniform(0, 1, size=3) * box
+            if kind == "bond":
+                special = last and mi >= nmol - nspecial
+                bl = r.uniform(*(tail_rng if special else head_rng))
+                u = np.array([0.0, 0.0, 1.0 if r.rand() < 0.5 else -1.0]) \
+                    if special else rand_unit(r)
+                out += [p0, p0 + bl * u]
+            else:
+                th = r.uniform(*(tail_rng if last else head_rng))
+                p1 = p0 + rand_unit(r) * r.uniform(0.12, 0.3)
+                p2 = place_next(r, None, p0, p1, r.uniform(0.12, 0.3), th,
+                                r.uniform(-3.1, 3.1))
+                out += [p0, p1, p2]
+        return np.array(out)
+
+    def many_nb_frame(self, n, box, it, head_rng, tail_rng, nspecial):
+        """all ordinary pairs at least head_rng[0] apart; the last 2*nspecial
+        beads form pairs along z at a distance inside tail_rng"""
+        r = self.r
+        hard = head_rng[0]
+        pos = np.zeros((n, 3))
+        nord = n - 2 * nspecial
+
+        def free(p, upto, skip=-1):
+            if upto == 0:
+                return True
+            d = min_image(pos[:upto] - p, box)
+            dd = np.sqrt((d * d).sum(axis=1))
+            if skip >= 0:
+                dd[skip] = 1e9
+            return bool((dd >= hard).all())
+        i = 0
+        while i < n:
+            for attempt in range(400):
+                if i < nord:
+                    if i % 2 == 1 and attempt < 200:
+                        a = pos[r.randint(i)]
+                        p = a + rand_unit(r) * r.uniform(hard, head_rng[1])
+                    else:
+                        p = r.uniform(0, 1, size=3) * box
+                    if free(p, i):
+                        pos[i] = p
+                        i += 1
+                        break
+                else:
+                    a = r.uniform(0, 1, size=3) * box
+                    b = a + np.array([0, 0, r.uniform(*tail_rng) *
+                                      (1 if r.rand() < 0.5 else -1)])
+                    if free(a, i) and free(b, i):
+                        pos[i], pos[i + 1] = a, b
+                        i += 2
+                        break
+            else:
+                return None
+        return pos
+
     @staticmethod
     def excluded(c, i, j):
         for name, tl in c["tuples"].items():
@@ -738,8 +926,9 @@ def fm_forces(c, box, pos, upos=None):
         if it["class"] == "pair":
             d = min_image(pos[None, :, :] - pos[:, None, :], box)  # r_j - r_i
             dist = np.sqrt((d * d).sum(axis=2))
-            for i in range(n):
-                for j in range(i + 1, n):
+            cand = np.argwhere(np.triu(dist < it["max"] + 0.05, 1))
+            for i, j in cand:
+                if True:
                     if it["type1"] != "*":
                         ti, tj = types[i], types[j]
                         if it["type1"] == it["type2"]:
@@ -788,6 +977,58 @@ def fm_forces(c, box, pos, upos=None):
                         info["fd_worst"] = max(info["fd_worst"], w / max(gm, 1.0))
         samples[it["name"]] = np.array(vals)
     return F, samples, info
+
+
+def own_least_squares(c, box, parsed, unwrapped, forces):
+    """independent solution of the force-matching problem: unknowns are the
+    knot values of natural cubic splines (the same function space as the
+    constrained (f, f'') parametrisation), design matrix from the basis
+    splines and the oracle's own internal-coordinate gradients"""
+    off, basis, ntot = {}, {}, 0
+    for it in c["interactions"]:
+        nk = len(it["grid"])
+        off[it["name"]] = ntot
+        basis[it["name"]] = [NaturalSpline(it["grid"], np.eye(nk)[k])
+                             for k in range(nk)]
+        ntot += nk
+    nb = len(parsed[0])
+    Phi = np.zeros((len(parsed) * nb * 3, ntot))
+    rhs = np.concatenate([F.reshape(-1) for F in forces])
+    chain = c["chain"]
+    for f, pos in enumerate(parsed):
+        base = f * nb * 3
+        upos = unwrapped[f]
+        bpos, bbox = (pos, box) if upos is None else (upos, NOBOX)
+        for it in c["interactions"]:
+            o = off[it["name"]]
+            B = basis[it["name"]]
+            if it["class"] == "pair":
+                d = min_image(pos[None, :, :] - pos[:, None, :], box)
+                dist = np.sqrt((d * d).sum(axis=2))
+                for i, j in np.argwhere(np.triu(dist < it["max"], 1)):
+                    if i // chain == j // chain and chain > 1 and \
+                            FGen.excluded(c, i % chain, j % chain):
+                        continue
+                    phi = np.array([float(b(dist[i, j])) for b in B])
+                    u = d[i, j] / dist[i, j]
+                    for cc in range(3):
+                        Phi[base + 3 * i + cc, o:o + len(B)] += -u[cc] * phi
+                        Phi[base + 3 * j + cc, o:o + len(B)] += u[cc] * phi
+            else:
+                for m in range(c["nmol"]):
+                    for t in c["tuples"][it["name"]]:
+                        idx = [m * chain + k for k in t]
+                        p = bpos[idx]
+                        v = ic_value(it["kind"], p, bbox)
+                        G = ic_grad(it["kind"], p, bbox)
+                        phi = np.array([float(b(v)) for b in B])
+                        for k, ii in enumerate(idx):
+                            for cc in range(3):
+                                Phi[base + 3 * ii + cc, o:o + len(B)] += G[k, cc] * phi
+    y, res, rank, sv = np.linalg.lstsq(Phi, rhs, rcond=None)
+    c["own_ls_cond"] = float(sv[0] / sv[-1])
+    return {it["name"]: y[off[it["name"]]:off[it["name"]] + len(it["grid"])]
+            for it in c["interactions"]}
 
 
 def fm_dump(c, frames_pos, forces_kj, box, conv):
@@ -863,6 +1104,28 @@ def build_fmatch_case(c):
     c["min_samples_per_interval"] = cover
     c["forces_max"] = float(max(np.abs(F).max() for F in forces))
     jr = np.random.RandomState(c.get("junk_seed", 1))
+    if c.get("many"):
+        # the tail-only intervals must be sampled by the last frame only,
+        # >= MIN_SAMPLES times each
+        it = c["interactions"][0]
+        g = np.array(it["grid"])
+        for k in c["many"]["tail_only_intervals"]:
+            for f in range(len(samples)):
+                v = samples[f][it["name"]]
+                cnt_ = int(((v >= g[k]) & (v < g[k + 1])).sum())
+                if (f < len(samples) - 1 and cnt_ > 0) or \
+                        (f == len(samples) - 1 and cnt_ < MIN_SAMPLES):
+                    under.append((it["name"], 0, k, cnt_))
+        c["undersampled"] = under
+    if c.get("noise"):
+        # noisy reference forces; expected = minimiser of |Phi y - F| over the
+        # natural-spline space (own design matrix from the basis splines)
+        sig = c["noise"] * c["forces_max"]
+        forces = [F + jr.standard_normal(F.shape) * sig for F in forces]
+        c["true_knots"] = {it["name"]: it["knots"] for it in c["interactions"]}
+        ls_knots = own_least_squares(c, box, parsed, unwrapped, forces)
+        for it in c["interactions"]:
+            it["knots"] = [float(v) for v in ls_knots[it["name"]]]
     nj = c.get("junk_before", 0) + c.get("junk_after", 0)
     if nj:
         # the last nj generated frames are junk: random forces, placed before
@@ -1047,7 +1310,8 @@ def fm_witness(c, files, cmd):
                            "chain", "nmol", "tuples", "min_samples_per_interval",
                            "cseed")}
     for k in ("trj_force", "junk_before", "junk_after", "too_few",
-              "bonded_order", "dist_opt", "sub", "wrap"):
+              "bonded_order", "dist_opt", "sub", "wrap", "many", "noise",
+              "true_knots", "own_ls_cond"):
         w[k] = c.get(k)
     w["interactions"] = c["interactions"]
     w["cmd"] = " ".join(["csg_fmatch"] + cmd[1:])
@@ -1060,6 +1324,7 @@ def fmatch_worker(a):
     exe, scratch = a["exe"], a["scratch"]
     evals, fams, counters, samples, distinct = 0, {}, {}, [], set()
     vcount = {}
+    many_list = []
 
     def cnt(k, v=1):
         counters[k] = counters.get(k, 0) + v
@@ -1068,8 +1333,18 @@ def fmatch_worker(a):
         cseed = (seed * 1000003 + shard * 7919 + ci * 104729 + 606) % (2 ** 32)
         g = FGen(cseed)
         c = None
+        many = None
+        if ci % 14 == 0:
+            # blocks with more than 4096 equations: one case in 14, the
+            # target sizes and variants in turn over shards and cases
+            family = "many-equations"
+            mi_ = shard + 16 * (ci // 14)
+            many = (MANY_TARGETS[mi_ % len(MANY_TARGETS)],
+                    "noisy" if mi_ % 3 == 2 else "tail")
+            if isinstance(many[0], tuple):
+                many = (int(g.r.randint(many[0][0], many[0][1] + 1)), many[1])
         for attempt in range(6):
-            c = g.make(family)
+            c = g.make_many(*many) if many else g.make(family)
             if c is None:
                 cnt("generator_retries")
                 continue
@@ -1129,6 +1404,24 @@ def fmatch_worker(a):
             cnt("cases_first_frame_nframes")
         if c.get("wrap"):
             cnt("cases_coordinates_wrapped")
+        if family == "many-equations":
+            mm = c["many"]
+            N_ = mm["N"]
+            cnt("many_eq/variant_" + mm["variant"])
+            cnt("many_eq/kind_" + mm["kind"])
+            cnt("many_eq/" + ("N_le_4096_control" if N_ <= 4096 else
+                              "N_multiple_of_4096_control" if N_ % 4096 == 0 else
+                              "N_4097_to_4200" if N_ <= 4200 else
+                              "N_4201_to_8192" if N_ <= 8192 else "N_gt_8192"))
+            cnt("many_eq/equations_total", N_)
+            cnt("many_eq/equations_beyond_last_multiple_of_4096",
+                N_ % 4096 if N_ > 4096 else 0)
+            cnt("many_eq/equations_carrying_tail_only_samples",
+                mm["equations_carrying_tail_only_samples"])
+            many_list.append("N=%d mod=%d %s %s %s tail_eq=%d" % (
+                N_, N_ % 4096, mm["kind"], mm["variant"],
+                "constrained" if c["constrained"] else "plain",
+                mm["equations_carrying_tail_only_samples"]))
         if family == "irregular-grid":
             for it in c["interactions"]:
                 kd = "nonbonded" if it["class"] == "pair" else \
@@ -1201,6 +1494,8 @@ def fmatch_worker(a):
                             "expected": float(f(x[len(x) // 2]))})
         shutil.rmtree(wd, ignore_errors=True)
     # max-type counters must not be summed over shards: report as strings
+    if many_list:
+        counters["many_eq/cases/shard%d" % shard] = "; ".join(many_list[:40])
     for k in list(counters):
         if k.startswith("max_rel_err_e12/"):
             counters[k.replace("_e12", "") + "/shard%d" % shard] = \
